@@ -237,6 +237,64 @@ def run(chk):
         if dev > 2e3 * eps:
             chk.fail("not-covariant", f"mean-field TEMPO with {ns} species, each written in its own basis: states rotated back / field differ by {dev:.2e}", info)
 
+    # ---- (e) parameters chosen by the library (guess_tempo_parameters / tempo_compute(parameters=None)): the guess for a problem
+    # written in another basis is the same guess (time step, memory steps, tolerance), so the convenience driver is covariant too.
+    # Systems whose fastest scale is a non-Hermitian Lindblad operator (a lowering operator with a large rate), and Hamiltonian-dominated ones
+    import warnings as _w
+    for it in range(6 if thorough else 2):
+        d = rng.choice([2, 3])
+        ev = rng.sample([-0.5, 0.0, 0.5, 1.0], d)
+        O = np.diag(ev).astype(complex)
+        a = np.array([[rng.gauss(0, 1) + 1j * rng.gauss(0, 1) for _ in range(d)] for _ in range(d)])
+        lind_dominated = it % 2 == 0
+        H = (a + a.conj().T) / (8 if lind_dominated else 1)
+        Lop = np.diag(np.ones(d - 1), 1).astype(complex)          # lowering operator: not Hermitian, zero lower triangle
+        gam = 4.0 if lind_dominated else 0.1
+        r = a @ a.conj().T
+        rho0 = r / np.trace(r)
+        V = haar(rng, d)
+        tol_ = rng.choice([0.05, 0.02])
+        info = {"kind": "guessed-parameters", "d": d, "eigenvalues": ev, "lindblad_dominated": lind_dominated, "tolerance": tol_}
+        chk.search_cases += 1
+        chk.count("cov_guess")
+        chk.case(info, ("guess", d, tuple(ev), lind_dominated, tol_))
+        try:
+            with _w.catch_warnings():
+                _w.simplefilter("ignore")
+                res_ = []
+                for W in (np.eye(d), V):
+                    rot = lambda X: W @ X @ W.conj().T
+                    sysm = oqupy.System(rot(H), gammas=[gam], lindblad_operators=[rot(Lop)])
+                    OO = rot(O)
+                    bath = oqupy.Bath((OO + OO.conj().T) / 2, _corr)
+                    g_ = oqupy.guess_tempo_parameters(bath, 0.0, 0.4, sysm, tol_)
+                    dyn = quiet(oqupy.tempo_compute, sysm, bath, rot(rho0), 0.0, 0.4, tolerance=tol_, progress_type="silent")
+                    res_.append(((g_.dt, g_.dkmax, g_.epsrel), list(dyn.times), np.array([W.conj().T @ x @ W for x in dyn.states])))
+        except Exception as ex:
+            chk.fail("covariance-raises", f"guess_tempo_parameters / tempo_compute raise {ex!r}", info)
+            continue
+        (g0, t0, s0), (g1, t1, s1) = res_
+        # the guess alone in two more bases: the order of the basis states reversed (a lowering operator becomes a raising one),
+        # and a second Haar basis
+        try:
+            with _w.catch_warnings():
+                _w.simplefilter("ignore")
+                for W in (np.eye(d)[::-1].astype(complex), haar(rng, d)):
+                    rot = lambda X: W @ X @ W.conj().T
+                    OO = rot(O)
+                    g_ = oqupy.guess_tempo_parameters(oqupy.Bath((OO + OO.conj().T) / 2, _corr), 0.0, 0.4,
+                                                      oqupy.System(rot(H), gammas=[gam], lindblad_operators=[rot(Lop)]), tol_)
+                    if g_.dkmax != g0[1] or abs(g_.dt - g0[0]) > 1e-9 * g0[0] or abs(g_.epsrel - g0[2]) > 1e-6 * g0[2]:
+                        g1, t1 = (g_.dt, g_.dkmax, g_.epsrel), t0
+        except Exception as ex:
+            chk.fail("covariance-raises", f"guess_tempo_parameters raises {ex!r}", info)
+            continue
+        if g0[1] != g1[1] or abs(g0[0] - g1[0]) > 1e-9 * g0[0] or abs(g0[2] - g1[2]) > 1e-6 * g0[2] or len(t0) != len(t1):
+            chk.fail("not-covariant", f"guess_tempo_parameters: the guess (dt, dkmax, epsrel) for the problem written in a rotated basis is {g1}, in the original basis {g0} "
+                     f"(tolerance {tol_})", info)
+        elif np.abs(s0 - s1).max() > 20 * max(g0[2], 1e-6):
+            chk.fail("not-covariant", f"tempo_compute with guessed parameters: rotated-basis result rotated back differs by {np.abs(s0 - s1).max():.2e} (guessed epsrel {g0[2]:.1e})", info)
+
     return chk.finish(
         level="proof",
         trusted=["models: Model/SuperOps.v (index-pair superoperators), Model/PathSum.v, Model/Schedule.v",
